@@ -25,6 +25,10 @@ class CallsMixin:
         rx = self._recv_expr
         if key is None:
             fv = self.ev(st, f)
+            nm0 = f.get('Name') if f['_'] == 'Ident' else None
+            if nm0 and self.frame and self.frame.contract and any(
+                    re.match(r'%s\s*:\s*contract\s' % re.escape(nm0), cl.text) for cl in self.frame.contract.get('oncall')):
+                return self.call_opaque(st, fv, args, e)      # the literal has a contract of its own
             if isinstance(fv, FuncV) and fv.lit is not None:
                 return self.call_literal(st, fv, [self.ev(st, a) for a in args], e)
             return self.call_opaque(st, fv, args, e)
@@ -269,7 +273,7 @@ class CallsMixin:
         line = e.get('line')
         if assumed:
             self.assumed.add(key)
-        else:
+        elif not havoc_oids:
             self.check_frame_declared(c, key)
         sig = self.callee_signature(key, c)
         binds = {}
@@ -699,6 +703,31 @@ class CallsMixin:
                     cap = {o['id'] for o in decl.get('captured', []) or []}
                     self.funcs.setdefault(self.frame.key, decl)
                     return self.apply_contract(st, self.frame.contract, self.frame.key, None, argv, e, assumed=True, havoc_oids=sorted(vs & cap))
+            for cl in self.frame.contract.get('oncall'):
+                m = re.match(r'(\w+)\s*:\s*contract\s+(\S+)\s*$', cl.text)
+                if m and m.group(1) == nm:
+                    # `oncall f: contract <func>#lit<n>`: f holds that function literal of the function under verification;
+                    # the call is replaced by the literal's contract (it is verified on its own); the captured variables
+                    # and ghost heaps its body assigns are havocked
+                    lk = m.group(2)
+                    lc = self.contracts.get(lk)
+                    ldecl = self.lit_region(lk) if hasattr(self, 'lit_region') else None
+                    if lc is None or ldecl is None:
+                        raise Unsupported('oncall %s: no contract / literal %s' % (nm, lk))
+                    vs, fs, calls = set(), set(), []
+                    self.assigned_in(ldecl.get('Body'), vs, fs, calls)
+                    cap = {o['id'] for o in ldecl.get('captured', []) or []}
+                    self.funcs.setdefault(lk, ldecl)
+                    saved = self.frame.contract
+                    try:
+                        # ghost heaps written by the literal's `after` clauses
+                        for cl2 in lc.get('after'):
+                            for g in re.findall(r'\bghost\s+(\w+)\s*\(', cl2.text):
+                                self.ghost_read(st, g, z3.IntVal(0))
+                                st.ghost[('gheap', g)] = fresh('hvG_' + g, st.ghost[('gheap', g)].sort())
+                        return self.apply_contract(st, lc, lk, None, argv, e, assumed=False, havoc_oids=sorted(vs & cap))
+                    finally:
+                        self.frame.contract = saved
             for cl in self.frame.contract.get('oncall'):
                 m = re.match(r'(\w+)\s*:\s*(.*)$', cl.text, re.S)
                 if m and m.group(1) == nm:
